@@ -151,6 +151,14 @@ def rules(fx, rep):
                 if o is None:
                     o = Origin(b)
                 src = strip(o.operand(t['args'][0])) if t['args'] else ('unknown',)
+                for _ in range(8):
+                    # a field of / reborrow of / closure capture of the caller's generator is still the caller's generator
+                    if src[0] == 'proj':
+                        src = strip(src[1])
+                    elif src[0] == 'call' and src[1] and src[1].get('name') in ('deref', 'deref_mut', 'borrow_mut', 'as_mut', 'by_ref') and src[2]:
+                        src = strip(src[2][0])
+                    else:
+                        break
                 if src[0] != 'param':
                     rng_bad.append((b.path, c['def'], term_str(src), t['span']))
             nm = (c.get('res') or c['def'])
